@@ -92,7 +92,8 @@ def gen_scenario(r: random.Random, task: Optional[str] = None, n_frames: Optiona
     n_frames = n_frames or r.randint(1, 4 if not big else 8)
     wide = r.choice([30.0, 60.0, 100.0])
     far_ego = r.random() < 0.5
-    ego_pos = (r.uniform(-1e4, 1e4), r.uniform(-1e4, 1e4), r.uniform(-3, 3)) if far_ego else (r.uniform(-100, 100), r.uniform(-100, 100), 0.0)
+    far = r.choice([1e4, 1e5])  # map coordinates of the order of an MGRS grid cell
+    ego_pos = (r.uniform(-far, far), r.uniform(-far, far), r.uniform(-3, 3)) if far_ego else (r.uniform(-100, 100), r.uniform(-100, 100), 0.0)
     ego_yaw = O.rand_yaw(r)
     ego_speed = r.uniform(0, 15)
     ego_yawrate = r.uniform(-0.5, 0.5)
@@ -133,6 +134,13 @@ def gen_scenario(r: random.Random, task: Optional[str] = None, n_frames: Optiona
                 trk_id=f"trk{i:03d}",
             )
         )
+    if tracks and r.random() < 0.2:
+        # two distinct objects of one label standing / moving side by side a few decimetres apart (a group of
+        # pedestrians): distinct ground truths however close they are
+        src = r.choice(tracks)
+        twin = dict(src, key=f"inst{len(tracks):03d}", trk_id=f"trk{len(tracks):03d}", p=[src["p"][0] + r.choice([-1, 1]) * r.uniform(0.2, 0.5), src["p"][1] + r.choice([-1, 1]) * r.uniform(0.0, 0.4), src["p"][2]])
+        tracks.append(twin)
+        n_tracks += 1
     p_det = r.choice([1.0, 0.9, 0.6])
     pos_sig = r.choice([0.02, 0.2, 0.8, 2.0])
     yaw_sig = r.choice([0.0, 0.05, 0.5, 2.0])
